@@ -123,12 +123,43 @@ func c46aVhostEval(host string, objs []*VirtualHost) (idx int) {
 	return -3
 }
 
+func c46aVhostSize(c c46aVhostCase) int {
+	n := 0
+	for _, v := range c.VHosts {
+		n += 1 + len(v)
+	}
+	return n
+}
+
+func c46aVhostOrd(c c46aVhostCase) string {
+	return fmt.Sprintf("%03d|%q|%q", c46aVhostSize(c), c.Authority, c.VHosts)
+}
+
+// c46aVhostTrim keeps the 3 smallest failures of st, sorted.
+func c46aVhostTrim(st *c46aVhostStats) {
+	idx := make([]int, len(st.fails))
+	for i := range idx {
+		idx[i] = i
+	}
+	sort.Slice(idx, func(a, b int) bool { return c46aVhostOrd(st.fails[idx[a]]) < c46aVhostOrd(st.fails[idx[b]]) })
+	if len(idx) > 3 {
+		idx = idx[:3]
+	}
+	f := make([]c46aVhostCase, len(idx))
+	d := make([]string, len(idx))
+	for i, j := range idx {
+		f[i], d[i] = st.fails[j], st.failDesc[j]
+	}
+	st.fails, st.failDesc = f, d
+}
+
 type c46aVhostStats struct {
-	evals, nontriv                 int64
-	ambiguous, tookCS, tookCI      int64
-	outcomes                       map[string]int64
-	fails                          []c46aVhostCase
-	failDesc                       []string
+	evals, nontriv            int64
+	ambiguous, tookCS, tookCI int64
+	nfail                     int64
+	outcomes                  map[string]int64
+	fails                     []c46aVhostCase
+	failDesc                  []string
 }
 
 func c46aVhost(r *vk.Run) {
@@ -222,9 +253,16 @@ func c46aVhost(r *vk.Run) {
 					}
 					if got != cs && got != ci {
 						octr[4]++
-						if len(st.fails) < 50 {
+						// keep the 3 smallest failing configurations (deterministic
+						// whatever the goroutine interleaving)
+						size := 0
+						for _, v := range vhs {
+							size += 1 + len(v)
+						}
+						if len(st.fails) < 3 || size <= c46aVhostSize(st.fails[len(st.fails)-1]) {
 							st.fails = append(st.fails, c46aVhostCase{Kind: "vhost", Authority: host, VHosts: vhs})
 							st.failDesc = append(st.failDesc, fmt.Sprintf("got vhost #%d, reference (case-sensitive) #%d, (ASCII-case-insensitive) #%d", got, cs, ci))
+							c46aVhostTrim(&st)
 						}
 					}
 				}
@@ -269,6 +307,7 @@ func c46aVhost(r *vk.Run) {
 			}
 			total.fails = append(total.fails, st.fails...)
 			total.failDesc = append(total.failDesc, st.failDesc...)
+			total.nfail += octr[4]
 			mu.Unlock()
 		}()
 	}
@@ -295,18 +334,14 @@ func c46aVhost(r *vk.Run) {
 	}
 	var fds []fd
 	for i, c := range total.fails {
-		n := 0
-		for _, v := range c.VHosts {
-			n += 1 + len(v)
-		}
-		fds = append(fds, fd{c, total.failDesc[i], fmt.Sprintf("%03d|%q|%q", n, c.Authority, c.VHosts)})
+		fds = append(fds, fd{c, total.failDesc[i], c46aVhostOrd(c)})
 	}
 	sort.Slice(fds, func(i, j int) bool { return fds[i].k < fds[j].k })
 	for i, f := range fds {
 		if i >= 3 {
 			break
 		}
-		r.Violation(P, fmt.Sprintf("vhost authority=%q domains=%q", f.c.Authority, f.c.VHosts), fmt.Sprintf("FindBestMatchingVirtualHost(%q, %q): %s", f.c.Authority, f.c.VHosts, f.d), f.c)
+		r.Violation(P, fmt.Sprintf("vhost authority=%q domains=%q", f.c.Authority, f.c.VHosts), fmt.Sprintf("FindBestMatchingVirtualHost(%q, %q): %s (%d failing configurations in total)", f.c.Authority, f.c.VHosts, f.d, total.nfail), f.c)
 	}
 	r.Sample(P, map[string]any{"authority": "x.a.b", "vhosts": [][]string{{"*.b"}, {"*", "*.a.b"}, {"*.a.b"}}, "expected_vhost": 1, "why": "suffix beats universal, longer suffix first, first listed on the full tie"})
 }
@@ -425,7 +460,11 @@ func c46aFractions(r *vk.Run) {
 			r.Outcome(P, "fraction: matches exactly f draws")
 		case count == f+1:
 			r.Outcome(P, "fraction: matches f+1 draws")
-			offByOne = append(offByOne, fmt.Sprintf("fraction=%d matched %d of 1000000 draws (draws 0..%d match, first non-matching draw %d)", f, count, f, fmiss))
+			miss := fmt.Sprintf("first non-matching draw %d", fmiss)
+			if fmiss < 0 {
+				miss = "no draw fails to match"
+			}
+			offByOne = append(offByOne, fmt.Sprintf("%d/%s (=%d per million) matched %d of 1000000 draws (draws 0..%d match, %s)", c.Numerator, c.Denominator, f, count, f, miss))
 			if firstOff == nil {
 				firstOff = &cases[i]
 			}
